@@ -1,22 +1,18 @@
 #!/bin/sh
-# tools/confirm_seed.sh <id> [check ...]: re-run an agent's seeded change in its worktree /tmp/wt-<id> (demo fails with the change,
-# the suite passes with it, the demo passes without it), then run the named checks (default: <id>) against it via try_seed.sh
+# tools/confirm_seed.sh <id> [check ...]: re-run an agent's seeded change in its worktree /tmp/wt-<id> (expects patch.diff and
+# seeded_demo/ there): the demo fails with the change, the suite passes with it, the demo passes without it; then run the
+# named checks (default: <id>) against the change via try_seed.sh (scratch worktree of /repo's HEAD, /repo untouched)
 ID=$1; shift
 CHECKS=${*:-$ID}
 export GOFLAGS=-mod=mod GOPROXY=off GOSUMDB=off GOTOOLCHAIN=local
 cd /tmp/wt-$ID || exit 2
-DEMO=$(git status --short | grep demo_test.go | awk '{print $2}' | head -1)
-[ -z "$DEMO" ] && { echo "no demo in worktree"; exit 2; }
-PKG=$(dirname $DEMO)
+[ -f patch.diff ] && [ -d seeded_demo ] || { echo "no patch.diff / seeded_demo in worktree"; exit 2; }
+git checkout -q -- homescript; git apply patch.diff || { echo "PATCH DOES NOT APPLY"; exit 2; }
 go build ./... || { echo "BUILD FAILS"; exit 2; }
-echo "-- demo with the change:"; go test -vet=off -count=1 ./$PKG/ 2>&1 | grep -E "^--- FAIL|^ok|^FAIL|^panic" | head -5
-mv $DEMO /tmp/demo_$ID.go
-echo "-- suite with the change:"; go test -vet=off -count=1 ./... 2>&1 | grep -v "no test files"
-git diff > /tmp/change_$ID.diff          # (no git stash: the stash is shared by all worktrees of a repository)
-git apply -R /tmp/change_$ID.diff
-cp /tmp/demo_$ID.go $DEMO
-echo "-- demo without the change:"; go test -vet=off -count=1 ./$PKG/ 2>&1 | tail -1
-rm -f $DEMO; git apply /tmp/change_$ID.diff; cp /tmp/demo_$ID.go $DEMO
-
+echo "-- demo with the change:"; go test -vet=off -count=1 ./seeded_demo/ 2>&1 | grep -E "^--- FAIL|^ok|^FAIL|^panic" | head -5
+echo "-- suite with the change:"; go test -vet=off -count=1 $(go list ./... | grep -v seeded_demo) 2>&1 | grep -v "no test files"
+git apply -R patch.diff
+echo "-- demo without the change:"; go test -vet=off -count=1 ./seeded_demo/ 2>&1 | tail -1
+git apply patch.diff
 cd /verif
-for c in $CHECKS; do echo "-- check $c:"; tools/try_seed.sh $c /tmp/seed-$ID/patch.diff; done
+for c in $CHECKS; do echo "-- check $c:"; tools/try_seed.sh $c /tmp/wt-$ID/patch.diff; done
